@@ -1010,6 +1010,36 @@ class CFG:
         if x.blk is y.blk: return x.idx <= y.idx
         return s.dominates(x.blk, y.blk)
 
+    def postdominators(s):
+        """block -> set of blocks that post-dominate it (paths to any exit: ret, unreachable, no-return call)"""
+        if s._pdom is None:
+            s._pdom, s._exit = _cfg_postdom(s)
+        return s._pdom
+
+    def control_deps(s, blk):
+        """list of (terminator_instruction, successor_block) edges on which `blk` is control dependent"""
+        pd = s.postdominators()
+        out = []
+        for a in s.blocks:
+            if len(s.succ[a]) < 2: continue
+            for t in s.succ[a]:
+                # blk postdominates t (or is t) but does not strictly postdominate a
+                if t in pd and blk in pd[t] and not (a in pd and blk in pd[a] and blk is not a):
+                    out.append((a.ins[-1], t))
+        return out
+
+    def control_deps_closure(s, blk):
+        """transitive control dependences: all (terminator, successor) edges that decide whether blk runs"""
+        seen = set(); out = []; work = [blk]; done = set()
+        while work:
+            b = work.pop()
+            if b in done: continue
+            done.add(b)
+            for br, t in s.control_deps(b):
+                if (br, t) not in seen:
+                    seen.add((br, t)); out.append((br, t)); work.append(br.blk)
+        return out
+
     # ---- instruction-level reachability
     def _live_len(s, b):
         return s.cut[b] + 1 if b in s.cut else len(b.ins)
@@ -1084,6 +1114,21 @@ class CFG:
         tg = set(targets)
         r = s.reach(start, avoid=tg, edge_filter=edge_filter)
         return not any(x.op == 'ret' for x in r)
+
+class _Exit:
+    name = '<exit>'
+    def __repr__(s): return '<exit>'
+
+def _cfg_postdom(cfg):
+    """post-dominator sets over the cut CFG with a virtual exit joined to every exit block"""
+    ex = _Exit()
+    blocks = list(cfg.blocks) + [ex]
+    rsucc = {b: list(cfg.pred[b]) for b in cfg.blocks}    # successors in the reversed graph
+    rsucc[ex] = list(cfg.exits())
+    rpred = {b: list(cfg.succ[b]) for b in cfg.blocks}
+    for b in cfg.exits(): rpred[b] = rpred[b] + [ex]
+    rpred[ex] = []
+    return _domtree(blocks, ex, rsucc, rpred), ex
 
 def _domtree(blocks, entry, succ, pred):
     # iterative dataflow dominators on reachable blocks
@@ -1168,11 +1213,14 @@ class Program:
             s._noret = nr
         return s._noret
 
-    def cfg(s, fn):
+    def cfg(s, fn, cut=True):
+        """CFG of fn; cut=True ends paths at calls to (derived) no-return functions, cut=False keeps the
+        plain CFG (use it for control dependence, where refusals such as flexerror() would otherwise make
+        everything after them control dependent on their guard)"""
         if isinstance(fn, str): fn = s.functions[fn]
-        c = s._cfg.get(fn)
+        c = s._cfg.get((fn, cut))
         if c is None:
-            c = s._cfg[fn] = CFG(fn, s.noreturn())
+            c = s._cfg[(fn, cut)] = CFG(fn, s.noreturn() if cut else frozenset())
         return c
 
     def all_ins(s):
